@@ -9,6 +9,10 @@ Kernels (MIR regenerated from /repo):
   i  get_block_headers_internal with the stable header store as a finite map, in two states: quiescent (heights below the
      stable height are stored) and mid-ingestion (the anchor's header is already stored at the stable height while the
      anchor is still the first unstable block): one header per height of the effective range, each linked to its predecessor
+  s  the same question across *real* stabilisations: transaction-carrying blocks arrive one by one, the real
+     state::ingest_stable_blocks_into_utxoset (real UTXO ingestion, real BlockHeaderStore::insert_block) runs after each arrival
+     and is re-entered while it reports Paused; the slicing predicate pauses at nondeterministically chosen calls; after every
+     round every (start, end) is answered by get_block_headers_internal and must give one header per height
 """
 import os, sys, time, json
 import z3
@@ -355,9 +359,10 @@ def main():
     rep.cov['mir'] = dict(prog.info)
     N = 5 if tier == 'quick' else 6
     rep.cov['bounds'] = dict(range_arithmetic='start, end, chain height symbolic < 2^31', trees=N, boundary='unstable chains of 1..3 blocks over 0..3 stable headers, every (start, end) in range, quiescent and mid-ingestion',
+                             stabilisations='kernel s: chains of 3..5 transaction-carrying blocks arriving one by one over 3 stable headers, threshold 1..3, real ingestion with up to 1 (quick) / 2 (thorough) nondeterministically placed pauses, every (start, end) after every ingestion round',
                              outside='80-byte encoding of a header (dependency); ranges longer than the modelled chain (the 100-header cap is decided symbolically in kernel r)')
     rep.cov['functions_encoded'] = ['verify_and_return_effective_range', 'get_block_headers_internal (+closures)', 'GenericUnstableBlocks::get_block_headers_in_range',
-                                    'BlockHeaderStore::get_block_headers_in_range', 'unstable_blocks::get_main_chain', 'state::main_chain_height']
+                                    'BlockHeaderStore::{get_block_headers_in_range,insert_block,insert}', 'unstable_blocks::get_main_chain', 'state::main_chain_height', 'state::ingest_stable_blocks_into_utxoset (+ UtxoSet::ingest_block / ingest_block_continue, unstable_blocks::{push,pop,peek})']
     rep.cov['stubs'] = btc.stub_docs(STUBS) + ['StableBTreeMap -> ordered association list', 'header bytes = (id, previous id)', 'Header::block_hash -> injective id']
     rep.assumptions = ['mid-ingestion state = what ingest_stable_blocks_into_utxoset leaves when ingest_block pauses: header stored at next_height, next_height unchanged, anchor still first unstable block']
     cands = Cands()
